@@ -257,6 +257,16 @@ func init() {
 			}
 			return []Value{BoolConst(e.Callee == want)}
 		},
+		"logGo": func(s *State, fn *ssa.Function, args []Value, where string) []Value {
+			// logGo(i, name): entry i is a go statement starting the function called name
+			e := s.logEntry(args[0])
+			want := args[1].(*StringV).litOr("")
+			if e.Callee != "go" || len(e.Args) == 0 {
+				return []Value{BoolConst(false)}
+			}
+			sv, ok := e.Args[0].(*StringV)
+			return []Value{BoolConst(ok && sv.litOr("") == want)}
+		},
 		"logIsTo": func(s *State, fn *ssa.Function, args []Value, where string) []Value {
 			e := s.logEntry(args[0])
 			wr, ok := args[1].(*IfaceV)
@@ -401,6 +411,16 @@ func init() {
 		},
 		"blockingOps": func(s *State, fn *ssa.Function, args []Value, where string) []Value {
 			return []Value{Const(64, uint64(s.blocking))}
+		},
+		"logRetInt": func(s *State, fn *ssa.Function, args []Value, where string) []Value {
+			e := s.logEntry(args[0])
+			k := asTerm(args[1])
+			if k.IsConst() && int(k.Val) < len(e.Rets) {
+				if t, ok := e.Rets[k.Val].(*Term); ok && t.Sort.Kind == KBV {
+					return []Value{ZExt(64, t)}
+				}
+			}
+			return []Value{s.freshVar("nologret", BV(64))}
 		},
 		"logRetBool": func(s *State, fn *ssa.Function, args []Value, where string) []Value {
 			e := s.logEntry(args[0])
@@ -628,15 +648,15 @@ func init() {
 		"(*sync.Mutex).Lock":     logOnly("sync.Mutex.Lock"),
 		"(*sync.Mutex).Unlock":   logOnly("sync.Mutex.Unlock"),
 		"context.Background": func(s *State, fn *ssa.Function, args []Value, where string) []Value {
-			return []Value{s.symValue(fn.Signature.Results().At(0).Type(), "ctx.background")}
+			return []Value{s.nonNilIface(fn.Signature.Results().At(0).Type(), "ctx.background")}
 		},
 		"context.WithCancel": func(s *State, fn *ssa.Function, args []Value, where string) []Value {
 			s.logEvent("context.WithCancel", nil, args...)
-			return []Value{s.symValue(fn.Signature.Results().At(0).Type(), "ctx"), &OpaqueV{Kind: "func", T: s.freshVar("cancel.fn", BV(64))}}
+			return []Value{s.nonNilIface(fn.Signature.Results().At(0).Type(), "ctx"), &OpaqueV{Kind: "func", T: s.freshVar("cancel.fn", BV(64))}}
 		},
 		"context.WithTimeout": func(s *State, fn *ssa.Function, args []Value, where string) []Value {
 			s.logEvent("context.WithTimeout", nil, args...)
-			return []Value{s.symValue(fn.Signature.Results().At(0).Type(), "ctx"), &OpaqueV{Kind: "func", T: s.freshVar("cancel.fn", BV(64))}}
+			return []Value{s.nonNilIface(fn.Signature.Results().At(0).Type(), "ctx"), &OpaqueV{Kind: "func", T: s.freshVar("cancel.fn", BV(64))}}
 		},
 		"time.After": func(s *State, fn *ssa.Function, args []Value, where string) []Value {
 			o := s.newObj(fn.Signature.Results().At(0).Type(), &OpaqueV{Kind: "chan"}, "time.After", true)
@@ -1354,4 +1374,12 @@ func rvRoot(v *OpaqueV) (*Term, string) {
 		p = sv.litOr("")
 	}
 	return r, p
+}
+
+func (s *State) nonNilIface(t types.Type, name string) Value {
+	v := s.symValue(t, name)
+	if iv, ok := v.(*IfaceV); ok {
+		s.assume(Ne(iv.Type, Const(32, 0)))
+	}
+	return v
 }
